@@ -104,6 +104,9 @@ func encSession(s *sessionsapi.SessionState) string {
 		if p == nil {
 			return "-"
 		}
+		if p.IsZero() {
+			return "0" // Go's zero time (UnixNano is undefined for it): the model's `0` — "IsZero()", never expired / age 0
+		}
 		return i64s(p.UnixNano())
 	}
 	return strings.Join([]string{hx(s.Email), hx(s.User), hx(s.PreferredUsername), strings.ReplaceAll(hxl(s.Groups), ",", ":"),
